@@ -24,6 +24,7 @@ EXPLANATION = (
     "(R6.5) the set of exec/eval/compile/import sites equals the reviewed inventory and record classes are only created "
     "through RecordDescriptor.__init__. NOT decided: behaviour of CPython's re/str.format beyond the model, the content "
     "of error messages, resource use for very long names."
+    " Also decided (rules added after the fifth blind round): (R6.4) every return of fieldtype() has passed a whitelist test of the requested name on every path and the function does not call itself (one list level); the WHITELIST_TREE walk is decided by facts and reachability; (R6.5) the JSON decoder's descriptor branch returns only validated constructions."
 )
 RULE_SUMMARY = (
     "rule instances are enumerated from the source (regex uses, return statements, template slots, dangerous call sites);"
@@ -475,9 +476,13 @@ def run(ctx):
                   key=f"R6.4:fieldtype:unguarded:{call_name(c)}")
     # every class handed out has passed the whitelist test in THIS activation: a return that is not under `<name> in WHITELIST`
     # (for instance a list type built around the result of a recursive lookup, which would accept `string[][]`) is a hole
+    def _wl_edge(facts):
+        return any(p and t.endswith(" in WHITELIST") and t.split(" in ")[0] in derives for t, p, _ in facts)
+
     for rt in [n for n in fcfg.stmt_nodes() if isinstance(n.ast, ast.Return)]:
-        facts = {(t, p) for t, p, _ in fcfg.facts_at(rt.id)}
-        guarded = [t for t, p in facts if p and t.endswith(" in WHITELIST") and t.split(" in ")[0] in derives]
+        # path-sensitive: on EVERY path to the return some whitelist test of a derived name has succeeded (the two spellings of the
+        # list / scalar split may test differently named values in different branches)
+        guarded = fcfg.must_hold(rt.id, _wl_edge, lambda node: None)
         ctx.check(bool(guarded), "R6.4", f"fieldtype:return@{norm(rt.ast)[:30]}", "a field type class is returned on a path on which no `<name> in WHITELIST` test of the requested "
                   "name (with at most one list suffix removed) has succeeded", rt.ast, "every return is under the whitelist test", key="R6.4:fieldtype:unguarded-return")
     selfcalls = [c for c in calls_in(ft) if isinstance(c.func, ast.Name) and c.func.id == ft.name]
